@@ -1,7 +1,7 @@
-import PyYetiVerif.Model.BulkTabFixed
+import PyYetiVerif.Model.BulkTabDefault
 import PyYetiVerif.Lemmas.BulkRealFmt
 import PyYetiVerif.Lemmas.BulkTab
-/-! Helper lemma for `Props/C13ValuesFixed.lean` (candidate fix of finding F65). -/
+/-! Helper lemma for `Props/C13ValuesTab.lean` (`wttabled1`, default format). -/
 namespace PyYetiVerif.C13
 open PyYetiVerif.Bulk PyYetiVerif.PyFloat PyYetiVerif.NasFloat
 
